@@ -65,6 +65,7 @@ type Case struct {
 	NoSameOwner bool   `json:"no_same_owner,omitempty"`
 	NoSamePerm  bool   `json:"no_same_perm,omitempty"`
 	PreLink     string `json:"prelink,omitempty"` // dest/l exists before the run as a symlink to this target (left by an earlier unpack)
+	PreName     string `json:"prename,omitempty"` // name of that link instead of "l" (one plain path component)
 	// Root is the first, unnamed entry of the archive; nil = a directory (mode 0755). Any kind
 	// is allowed (file, sym, dev); a non-empty Name puts a FILENAME element in front of it.
 	Root *Op `json:"root,omitempty"`
@@ -75,6 +76,14 @@ type Case struct {
 	// Unpriv: the child unpacks as an unprivileged user (uid/gid 4242) that owns the destination
 	// tree and the u* sentinels outside; everything else outside belongs to root.
 	Unpriv bool `json:"unpriv,omitempty"`
+}
+
+func (c Case) preName() string {
+	n := c.PreName
+	if n == "" || n == "." || n == ".." || strings.ContainsAny(n, "/\x00") || len(n) > 200 {
+		return "l"
+	}
+	return n
 }
 
 func (c Case) rootOp() Op {
@@ -550,6 +559,22 @@ func dropTrees() {
 	freeTrees = nil
 }
 
+// chunkInto cuts the archive into chunks (this does not interpret it: safe in the parent),
+// stores them in root/store and writes the index to root/job/a.caidx.
+func chunkInto(root string, archive []byte) int {
+	st, err := desync.NewLocalStore(filepath.Join(root, "store"), desync.StoreOptions{Uncompressed: true})
+	must(err)
+	ch, err := desync.NewChunker(bytes.NewReader(archive), 64, 192, 768)
+	must(err)
+	idx, err := desync.ChunkStream(context.Background(), ch, st, 1)
+	must(err)
+	var buf bytes.Buffer
+	_, err = idx.WriteTo(&buf)
+	must(err)
+	must(os.WriteFile(filepath.Join(root, "job/a.caidx"), buf.Bytes(), 0o644))
+	return len(idx.Chunks)
+}
+
 // ---------------------------------------------------------------------------- run
 
 var (
@@ -607,7 +632,7 @@ func runReal(c Case) (o hx.Outcome) {
 		must(os.Symlink(c.DestLink, destPath))
 	}
 	if c.PreLink != "" {
-		must(os.Symlink(c.PreLink, filepath.Join(destPath, "l")))
+		must(os.Symlink(c.PreLink, filepath.Join(destPath, c.preName())))
 	}
 	if c.Unpriv {
 		// the destination path and what is in it belong to the unpacking user (lchown: never through a link)
@@ -630,18 +655,7 @@ func runReal(c Case) (o hx.Outcome) {
 	must(os.WriteFile(filepath.Join(root, "job/a.catar"), archive, 0o644))
 	chunks := 0
 	if c.Path == "index" {
-		// chunking the archive does not interpret it: safe in the parent
-		st, err := desync.NewLocalStore(filepath.Join(root, "store"), desync.StoreOptions{Uncompressed: true})
-		must(err)
-		ch, err := desync.NewChunker(bytes.NewReader(archive), 64, 192, 768)
-		must(err)
-		idx, err := desync.ChunkStream(context.Background(), ch, st, 1)
-		must(err)
-		var buf bytes.Buffer
-		_, err = idx.WriteTo(&buf)
-		must(err)
-		must(os.WriteFile(filepath.Join(root, "job/a.caidx"), buf.Bytes(), 0o644))
-		chunks = len(idx.Chunks)
+		chunks = chunkInto(root, archive)
 	}
 	jb, _ := json.Marshal(job{Root: root, Nonce: nonce, Mode: c.Path, Workers: c.Workers, NoSameOwner: c.NoSameOwner, NoSamePerm: c.NoSamePerm, Unpriv: c.Unpriv})
 	jobPath := filepath.Join(scratch, "job.json")
@@ -699,7 +713,7 @@ func runReal(c Case) (o hx.Outcome) {
 	var symNames []string
 	symThenEntry, absTarget, crossed := false, false, false
 	if c.PreLink != "" {
-		symNames = append(symNames, "l")
+		symNames = append(symNames, c.preName())
 		o.Class("symlink-in-dest-before-the-run")
 		absTarget = strings.HasPrefix(c.PreLink, "/")
 	}
@@ -831,10 +845,10 @@ func runReal(c Case) (o hx.Outcome) {
 			linkTarget, viaPre := "", false
 			if h := hist[len(hist)-1]; len(h) > 0 && h[len(h)-1].k == "sym" && h[len(h)-1].name == raw {
 				linkTarget = h[len(h)-1].target
-			} else if c.PreLink != "" && raw == "l" && len(hist) == 1 && rootOp.K == "dir" {
+			} else if c.PreLink != "" && raw == c.preName() && len(hist) == 1 && rootOp.K == "dir" {
 				linkTarget, viaPre = c.PreLink, true
 				for _, e := range hist[0] {
-					if e.name == "l" {
+					if e.name == c.preName() {
 						linkTarget = ""
 					}
 				}
@@ -849,6 +863,28 @@ func runReal(c Case) (o hx.Outcome) {
 						sameName["same-name:prelink-then-device:numbers-match-target"] = true
 					}
 					nontrivial = true
+				}
+			}
+		}
+		if !op.NoName && ei < len(res.Calls) {
+			// an earlier symlink in this directory (or one left in dest before) whose name is this
+			// entry's name plus an affix: where a helper file of the unpacker would be
+			sibs := hist[len(hist)-1]
+			if c.PreLink != "" && len(hist) == 1 && rootOp.K == "dir" {
+				sibs = append([]acc{{c.preName(), "sym", c.PreLink}}, sibs...)
+			}
+			for _, e := range sibs {
+				if e.k != "sym" || e.name == raw {
+					continue
+				}
+				switch affixKind(e.name, raw) {
+				case "observed":
+					sameName["sibling-name:observed-helper-name"] = true
+					sameName["sibling-name:observed-helper-name:"+op.K] = true
+					nontrivial = true
+				case "idiom":
+					sameName["sibling-name:tempfile-idiom"] = true
+					sameName["sibling-name:tempfile-idiom:"+op.K] = true
 				}
 			}
 		}
@@ -910,6 +946,16 @@ func runReal(c Case) (o hx.Outcome) {
 	}
 	for k := range sameName {
 		o.Class(k)
+	}
+	if sameName["sibling-name:tempfile-idiom"] || sameName["sibling-name:observed-helper-name"] {
+		switch hp := helperProbe(); {
+		case hp.err != "":
+			o.Class("helper-name-probe:failed")
+		case len(hp.helpers) == 0:
+			o.Class("helper-name-probe:ran", "helper-name-probe:none-observed")
+		default:
+			o.Class("helper-name-probe:ran", "helper-name-probe:observed")
+		}
 	}
 	if len(before) >= 40 {
 		// every object outside dest was recorded with mode, owner, ns mtime, xattrs, link target and
@@ -987,6 +1033,9 @@ func runReal(c Case) (o hx.Outcome) {
 	if c.Unpriv {
 		shape = append([]string{"unprivileged"}, shape...)
 		o.Desc.(map[string]any)["unprivileged"] = true
+	}
+	if c.PreLink != "" && c.preName() != "l" {
+		shape = append([]string{"before: " + shortName(c.preName()) + "->" + shortName(c.PreLink)}, shape...)
 	}
 	o.Key = c.Path + "|" + c.PreLink + "|" + strings.Join(shape, "|")
 	obs := observed{Result: res.Err, Changes: changes, Stderr: res.Stderr, Final: res.Final}
@@ -1066,10 +1115,14 @@ func runReal(c Case) (o hx.Outcome) {
 				deferred = true
 			}
 		}
-		mech := mechanism(entries, res.Calls, call, c.Dest)
+		pre := ""
+		if c.PreLink != "" {
+			pre = c.preName()
+		}
+		mech := mechanism(entries, res.Calls, call, c.Dest, pre)
 		if deferred {
 			call = len(res.Calls) - 1
-			mech = mechanism(entries, res.Calls, call, c.Dest)
+			mech = mechanism(entries, res.Calls, call, c.Dest, pre)
 			mech = mech[:strings.LastIndexByte(mech, ':')] + ":deferred"
 		}
 		sig := "C18:" + mech + ":" + ch.Effect
@@ -1096,8 +1149,8 @@ func runReal(c Case) (o hx.Outcome) {
 
 // Name kinds and routes that make up a signature "C18:<name kind>:<route>:<effect>".
 var (
-	sigKinds  = []string{"dotdot-name", "slash-in-name", "absolute-name", "self-slash-name", "nameless-entry", "empty-name", "dot-name", "dir-over-symlink", "entry-behind-symlink-root", "dest-is-symlink", "dest-became-symlink", "entry-over-symlink", "plain-name", "unattributed"}
-	sigRoutes = []string{"lexical", "via-symlink", "own-link-followed", "link-kept-and-followed", "self", "deferred", "unknown"}
+	sigKinds  = []string{"dotdot-name", "slash-in-name", "absolute-name", "self-slash-name", "nameless-entry", "empty-name", "dot-name", "dir-over-symlink", "entry-behind-symlink-root", "dest-is-symlink", "dest-became-symlink", "entry-over-symlink", "symlink-at-helper-name", "plain-name", "unattributed"}
+	sigRoutes = []string{"lexical", "via-symlink", "own-link-followed", "link-kept-and-followed", "helper-followed", "self", "deferred", "unknown"}
 )
 
 // mechanism names how entry #call got outside: the route (lexical = the joined path itself
@@ -1106,7 +1159,23 @@ var (
 // self = the entry's own path is dest; deferred = work done after the last entry) and the kind
 // of raw name that opened it
 // (looked for in the entry itself, then in earlier entries from the latest backwards).
-func mechanism(entries []Op, calls []callRec, call int, destState string) string {
+// helperLinkBefore: an earlier symlink entry in the same directory (or the link left in dest
+// before) is named like this entry plus a temp-file affix.
+func helperLinkBefore(calls []callRec, call int, preName string) bool {
+	dir, base := filepath.Split(calls[call].Name)
+	if preName != "" && dir == "" && affixKind(preName, base) != "" {
+		return true
+	}
+	for i := 1; i < call; i++ {
+		d, b := filepath.Split(calls[i].Name)
+		if calls[i].Kind == "sym" && calls[i].Err == "" && d == dir && affixKind(b, base) != "" {
+			return true
+		}
+	}
+	return false
+}
+
+func mechanism(entries []Op, calls []callRec, call int, destState, preName string) string {
 	if call < 0 || call >= len(calls) || call >= len(entries) {
 		return "unattributed:unknown"
 	}
@@ -1174,6 +1243,8 @@ func mechanism(entries []Op, calls []callRec, call int, destState string) string
 			k = "dir-over-symlink"
 		case calls[call].Kind != "sym" && calls[call].Over != "":
 			k, route = "entry-over-symlink", "link-kept-and-followed"
+		case helperLinkBefore(calls, call, preName):
+			k, route = "symlink-at-helper-name", "helper-followed"
 		case calls[call].Kind == "sym":
 			k, route = "plain-name", "own-link-followed"
 		default:
@@ -1386,7 +1457,39 @@ func genCase(t *rapid.T) Case {
 		}
 	}
 
-	switch rapid.SampledFrom([]string{"random", "random", "sym-child", "sym-child", "sym-dir", "replace", "self", "self", "dotdot-dir", "dotdot-entry", "dotdot-entry", "absolute", "long", "same-name", "same-name", "same-name", "after-root-bye", "link-then-node", "link-then-node", "dir-again", "dir-again", "dir-again"}).Draw(t, "scenario") {
+	switch rapid.SampledFrom([]string{"random", "random", "sym-child", "sym-child", "sym-dir", "replace", "self", "self", "dotdot-dir", "dotdot-entry", "dotdot-entry", "absolute", "long", "same-name", "same-name", "same-name", "after-root-bye", "link-then-node", "link-then-node", "dir-again", "dir-again", "dir-again", "sibling", "sibling", "sibling"}).Draw(t, "scenario") {
+	case "sibling": // a symlink where a helper file of the unpacker for the next entry would be (name + affix)
+		affs := append([]affix{}, idiomAffixes...)
+		if obs := helperProbe().helpers; len(obs) > 0 && rapid.Bool().Draw(t, "use-observed") {
+			affs = obs
+		}
+		for i, n := 0, rapid.IntRange(1, 2).Draw(t, "pairs"); i < n; i++ {
+			base := rapid.SampledFrom([]string{"x", "f", "data", "d"}).Draw(t, "base")
+			a := affs[rapid.IntRange(0, len(affs)-1).Draw(t, "affix")]
+			tg := rapid.SampledFrom([]string{"/sb/l1/xvictim", "../victim", "/abs/x", "/sb/l1/uvictim", "../uvictim", "../xvictim", "/sb/outside", "../outside", "/sb/l1/uoutside", "nonexistent", "../newfile", "/sb/outside/new"}).Draw(t, "stargets")
+			if i == 0 && len(ops) == 0 && wrap == 0 && rapid.IntRange(0, 3).Draw(t, "viaprelink") == 0 {
+				c.PreLink, c.PreName, c.Dest, c.DestLink = tg, a.apply(base), "", "" // the link was left by an earlier unpack
+			} else {
+				l := plainEntry(t, rapid.SampledFrom([]string{"sym", "sym", "sym", "sym", "file", "dir"}).Draw(t, "helperkind"), a.apply(base))
+				l.Target, l.Xattrs = tg, nil
+				if l.K != "sym" {
+					l.Target = ""
+				}
+				ops = append(ops, l)
+				if l.K == "dir" {
+					ops = append(ops, Op{K: "bye"})
+				}
+			}
+			if rapid.IntRange(0, 5).Draw(t, "between") == 0 {
+				ops = append(ops, plainEntry(t, "file", "other"))
+			}
+			m := plainEntry(t, rapid.SampledFrom([]string{"file", "file", "file", "file", "dir", "sym", "dev"}).Draw(t, "mainkind"), base)
+			m.Xattrs = nil
+			ops = append(ops, m)
+			if m.K == "dir" {
+				ops = append(ops, plainEntry(t, "file", "in"), Op{K: "bye"})
+			}
+		}
 	case "dir-again": // a directory entry repeated under the same name with another mode, then entries inside it
 		d := rapid.SampledFrom([]string{"d", "d", "a", "l"}).Draw(t, "dname")
 		first := plainEntry(t, "dir", d)
@@ -1627,6 +1730,7 @@ var spec = &hx.Spec[Case]{
 		"the destination path is an empty directory (optionally holding one symlink 'l', as an earlier unpack could leave it), a directory with content, absent, a file, or a symlink; nothing but the unpacker touches the tree",
 		"'outside' is everything but the destination path: when the destination is or becomes a symlink, objects reached through it are outside; the first entry of the archive may create or replace the destination path itself (a root symlink alone is no violation), later entries may not",
 		"the child records FilesystemWriter calls through a pass-through wrapper around desync.LocalFS (used for attribution and class counting only, the verdict is the parent's snapshot difference)",
+		"helper names: once per process a plain archive is unpacked by a child under strace (-e trace=%file); every path below dest that is not an entry's own path is turned into a prefix/suffix pattern and planted as a symlink next to later entries, together with a dictionary of temp-file idioms; a probe that cannot run leaves the class helper-name-probe:ran empty (inconclusive)",
 		"archives are chunked in the parent with desync.ChunkStream (min 64, avg 192, max 768) into an uncompressed LocalStore inside the chroot tree",
 		"the parent and most children run as root (chown, mknod succeed); 'unprivileged' children drop to uid/gid 4242 after the chroot, own the destination tree and the u* sentinels outside it, and get EPERM/EACCES like any user",
 	},
@@ -1639,6 +1743,7 @@ var spec = &hx.Spec[Case]{
 		"same-name:symlink-then-device:numbers-match-target:fifo", "same-name:symlink-then-device:numbers-match-target:blk", "same-name:prelink-then-device:numbers-match-target",
 		"unprivileged-unpack", "unprivileged-unpack:owner-restoration-on", "dir-entry-repeated:mode-readonly", "dir-entry-repeated:mode-readonly:unprivileged",
 		"symlink-then-file", "symlink-then-file:unlink-refused", "symlink-then-file:unlink-refused:link-to-outside",
+		"sibling-name:tempfile-idiom", "sibling-name:tempfile-idiom:file", "helper-name-probe:ran",
 		"same-name:dir-then-symlink(refused)", "same-name:prefix-names:dir-then-file-then-symlink", "same-name:length>=4", "outside:metadata-compared",
 		"root:dir", "root:sym", "root:file", "root:dev", "root:non-dir:followed-by-named-entry", "root:non-dir:followed-by-nameless-entry", "root:sym:accepted:followed-by-named-entry",
 		"after-root-goodbye:named-entry", "after-extra-goodbye:named-entry",
@@ -2010,6 +2115,31 @@ func TestEnum(t *testing.T) {
 			cases = append(cases, Case{Path: p, Workers: 1, Ops: ops, Unpriv: true, NoSameOwner: true}, Case{Path: p, Workers: 1, Ops: ops, Unpriv: true, NoSameOwner: true, Dest: "nonempty", PreLink: "../uoutside"})
 		}
 	}
+	// a symlink where a helper file for the next entry would be: every idiom (and every pattern
+	// the probe saw the unpacker use) next to a file; a sample next to the other kinds and as a
+	// link left in dest before
+	affs := append(append([]affix{}, helperProbe().helpers...), idiomAffixes...)
+	for i, a := range affs {
+		observed := i < len(helperProbe().helpers)
+		for _, tg := range []string{"/sb/l1/xvictim", "../outside"} {
+			link := attr(Op{K: "sym", Name: a.apply("x"), Target: tg})
+			for _, p := range pathFor() {
+				cases = append(cases, Case{Path: p, Workers: 1, Ops: []Op{link, attr(Op{K: "file", Name: "x"})}})
+			}
+		}
+		if observed || i%6 == 0 || hx.Thorough() {
+			link := attr(Op{K: "sym", Name: a.apply("x"), Target: "/sb/l1/uvictim"})
+			for _, p := range pathFor() {
+				cases = append(cases,
+					Case{Path: p, Workers: 1, Ops: wrapIn(1, link, attr(Op{K: "dir", Name: "x"}), attr(Op{K: "file", Name: "in"}), Op{K: "bye"})},
+					Case{Path: p, Workers: 1, Ops: []Op{link, attr(Op{K: "sym", Name: "x", Target: "nowhere"}), attr(Op{K: "dev", Name: "x", DevType: "fifo"})}},
+					Case{Path: p, Workers: 1, PreLink: "/sb/l1/uvictim", PreName: a.apply("x"), Ops: []Op{attr(Op{K: "file", Name: "x"})}},
+					Case{Path: p, Workers: 1, Unpriv: true, NoSameOwner: true, Ops: []Op{link, attr(Op{K: "file", Name: "x"})}},
+					Case{Path: p, Workers: 1, Ops: []Op{attr(Op{K: "file", Name: a.apply("x")}), link, attr(Op{K: "file", Name: "x"}), attr(Op{K: "file", Name: "x"})}},
+				)
+			}
+		}
+	}
 	// every shard builds the same list and runs its share
 	all := len(cases)
 	var mine []Case
@@ -2024,7 +2154,7 @@ func TestEnum(t *testing.T) {
 		hx.Note("enumeration_size", all)
 	}
 	if runPool(t, cases) {
-		hx.Exhaustive("listed hostile names x {dir,file,symlink,device} x nesting depths; listed symlink targets (made by the archive or present before) x entries beneath/over the link; replace-current-directory sequences for every listed self name (nameless, empty, '.', '/', '//', '/.', './', './/'); entries with user.*/trusted.* xattrs incl. symlinks to existing outside objects; listed same-name and prefix-name sequences (dir, file, symlink in turn) x listed outside targets; root entry kinds (dir, named dir, file, fifo, device with file mode, symlink to listed targets) x destination states (empty, with content, absent, file, symlink outside/inside) x listed follow-ups; entries behind the root goodbye; unprivileged unpack of directory-repeated-with-read-only-mode sequences; symlink (archive-made or pre-existing) to listed outside nodes/files then a DEVICE entry with matching and with differing type/numbers")
+		hx.Exhaustive("listed hostile names x {dir,file,symlink,device} x nesting depths; listed symlink targets (made by the archive or present before) x entries beneath/over the link; replace-current-directory sequences for every listed self name (nameless, empty, '.', '/', '//', '/.', './', './/'); entries with user.*/trusted.* xattrs incl. symlinks to existing outside objects; listed same-name and prefix-name sequences (dir, file, symlink in turn) x listed outside targets; root entry kinds (dir, named dir, file, fifo, device with file mode, symlink to listed targets) x destination states (empty, with content, absent, file, symlink outside/inside) x listed follow-ups; entries behind the root goodbye; a symlink at every listed temp-file idiom name (and every helper name the probe observed) next to a file entry; unprivileged unpack of directory-repeated-with-read-only-mode sequences; symlink (archive-made or pre-existing) to listed outside nodes/files then a DEVICE entry with matching and with differing type/numbers")
 	}
 }
 
